@@ -1048,7 +1048,8 @@ class CObs:
         return self.real == other.real and self.imag == other.imag
 
     def __str__(self):
-        return '(' + str(self.real) + int(self.imag >= 0.0) * '+' + str(self.imag) + 'j)'
+        imag_str = str(self.imag)
+        return '(' + str(self.real) + int(imag_str[0] != '-') * '+' + imag_str + 'j)'
 
     def __repr__(self):
         return 'CObs[' + str(self) + ']'
